@@ -180,15 +180,17 @@ impl ArrayToArrayCodecTraits for TransposeCodec {
                 for (i, val) in self.order.0.iter().enumerate() {
                     order_decode[*val] = i;
                 }
+                // The encoded elements are laid out with the transposed shape
                 let shape = decoded_representation
                     .shape()
                     .iter()
                     .map(|s| usize::try_from(s.get()).unwrap())
                     .collect::<Vec<_>>();
+                let transposed_shape = permute(&shape, &self.order.0);
                 Ok(super::transpose_vlen(
                     &bytes,
                     &offsets,
-                    &shape,
+                    &transposed_shape,
                     order_decode,
                 ))
             }
